@@ -369,7 +369,7 @@ def snapshot_template(tpl):
 
     def edge_snap(e):
         src, tgt, tmpl, attrs = e[:4]
-        return [src, tgt, getattr(tmpl, "name", None) if tmpl is not None else None,
+        return [src, tgt, node_snap(tmpl) if tmpl is not None else None,
                 {k: repr(v) for k, v in sorted(attrs.items())}]
     out = dict(name=tpl.name, nodes={k: node_snap(v) for k, v in tpl.nodes.items()},
                edges=[edge_snap(e) for e in tpl.edges],
@@ -445,9 +445,9 @@ def do_read_only(tpl, model, op):
         raise ValueError(op)
 
 
-def check_read_only(model, ops, seed=0):
+def check_read_only(model, ops, seed=0, dict_vars=False):
     """C14-B: a sequence of read-only / copy-making operations leaves the template and its vector field unchanged."""
-    tpl = mdl.build_templates(model)
+    tpl = mdl.build_templates(model, dict_vars=dict_vars)
     before = snapshot_template(tpl)
     fails = []
     for op in ops:
@@ -661,6 +661,23 @@ def clear_all_caches():
     template_cache.clear()
 
 
+def delays_of(model):
+    out = []
+
+    def walk(t):
+        if isinstance(t, list):
+            if t and t[0] == "past":
+                out.append(float(t[2]))
+            for x in t:
+                walk(x)
+    for op in model.get("ops", {}).values():
+        for _, _, tr in op["eqs"]:
+            walk(tr)
+    nodes, edges = mdl.flatten(model)
+    out += [float(e["d"]) for e in edges if e.get("d") is not None]
+    return out
+
+
 def check_jacobian(model, seed=0, sparse=False, backend="default", n_states=2):
     """C12-B: J from get_jacobian_func == central differences of the get_run_func field, same ordering."""
     rng = np.random.default_rng(seed)
@@ -742,6 +759,35 @@ def check_jacobian(model, seed=0, sparse=False, backend="default", n_states=2):
                 bad = np.unravel_index(int(np.argmax(np.abs(Js - FDh))), FDh.shape)
                 fails.append(dict(clause="jacobian (delayed model): sum of history matrices == d f / d y(t - tau) (same history vector for every delay)",
                                   entry=[int(b) for b in bad], observed=float(Js[bad]), expected=float(FDh[bad])))
+            # one matrix per DISTINCT delay: perturb the history only at t0 - tau_k; the returned matrices must be exactly these
+            # (compared as a multiset: no assumption on their order)
+            delays = sorted(set(delays_of(model)))
+            if not fails and len(delays) > 1:
+                def fld_k(yy, hh, tau):
+                    args = list(rargs)
+                    args[hi] = lambda tq: hh if abs(tq - (t0 - tau)) < 1e-9 else hvec
+                    return np.array(rf(t0, np.array(yy, dtype=float), *args[2:]), dtype=float, copy=True).ravel()
+                FDk = []
+                for tau in delays:
+                    M = np.zeros((n, n))
+                    for j in range(n):
+                        hp, hm = hvec.copy(), hvec.copy()
+                        hp[j] += h
+                        hm[j] -= h
+                        M[:, j] = (fld_k(y, hp, tau) - fld_k(y, hm, tau)) / (2 * h)
+                    FDk.append(M)
+                got = [np.asarray(m.todense() if hasattr(m, "todense") else m, dtype=float) for m in Jt]
+                left = list(range(len(FDk)))
+                ok = len(got) == len(FDk)
+                for g in got:
+                    hit = [k for k in left if g.shape == FDk[k].shape and np.allclose(g, FDk[k], rtol=1e-5, atol=1e-7)]
+                    if not hit:
+                        ok = False
+                        break
+                    left.remove(hit[0])
+                if not ok:
+                    fails.append(dict(clause="jacobian (delayed model): one matrix per distinct delay, each == d f / d y(t - tau_k)",
+                                      observed=[g.round(4).tolist() for g in got][:3], expected=[m.round(4).tolist() for m in FDk][:3]))
             if fails:
                 return fails
     return fails
